@@ -403,6 +403,11 @@ def probsSumOne (tol : α) (s : DD α) : Bool := Scalar.leb (Scalar.abs (sumL s.
 /-- clause bounds_monotone_in_domain: `lower ≤ b₁ ≤ … ≤ b_{n-1} ≤ upper` -/
 def boundsMonoInDom (s : DD α) : Bool := nondecr s.allBounds
 
+/-- clause bounds_in_domain: the domain is ordered and every interior bound lies in it — holds
+for every parent (the quantiles are clamped into the domain), judged unconditionally by the driver -/
+def boundsInDom (s : DD α) : Bool :=
+  Scalar.leb s.dom.lo s.dom.hi && s.bounds.all (fun b => Scalar.leb s.dom.lo b && Scalar.leb b s.dom.hi)
+
 /-- clause values_strict_mono -/
 def valuesStrictMono (s : DD α) : Bool := strictIncr s.cats
 
